@@ -3,7 +3,7 @@
 spec=$1; cfg=$2; meta=$3; shift 3
 cd "$(dirname "$spec")"
 rm -rf "$meta"; mkdir -p "$meta"
-timeout ${TLC_TIMEOUT:-600} tlc -workers ${TLC_WORKERS:-1} -metadir "$meta" -config "$cfg" "$@" "$(basename "$spec")" > "$meta/out.txt" 2>&1
+timeout ${TLC_TIMEOUT:-600} tlc -workers ${TLC_WORKERS:-1} -metadir "$meta" -noGenerateSpecTE -config "$cfg" "$@" "$(basename "$spec")" > "$meta/out.txt" 2>&1
 rc=$?
 grep -a "^<<\"" "$meta/out.txt" | cut -c1-${TLC_CUT:-600} | head -${TLC_FAILS:-40}
 grep -aE "^(Error|[0-9]+ states generated|Finished in|The exception|: |line [0-9]+, col|.*Unknown operator|.*requires [0-9]+ arg|Parsing or semantic)" "$meta/out.txt" | cut -c1-400 | head -${TLC_HEAD:-30}
